@@ -68,9 +68,13 @@ CHECKS = {
          "continuation denotes the rest; None iff fewer than q were left), sp_exhaustion, merge_perm (every item exactly once), "
          "merge_step (latest head wins, first source wins ties), merge_order (per-source order kept) - for all sources obeying the "
          "lazy-list contract harvest_spec. Tie: splicer.Splicer.Harvest over synthetic lazy sources, positions re-harvested and "
-         "interleaved (slice aliasing of clone()), exhaustive small scope + random.",
+         "interleaved (slice aliasing of clone()), exhaustive small scope + random; timestamps in quarter-second units; the offset "
+         "returned with a continuation is compared too. END TO END: splicer.NewSplicer over inputs FETCHED from the simulator "
+         "(collections of one to three pages by URL, posts without replies, missing documents), harvested through the returned "
+         "continuation: deliveries equal Splicer.sp_harvest over Paging pages (batch c11-remote).",
     note="harvest_spec is a Section hypothesis (C10 proves it for collections). Position purity is observed on the code, the model is "
-         "purely functional.",
+         "purely functional. NewSplicer (initial page, basepoint, buffer per source) is covered by the remote batch only - found "
+         "missing by the mutation survey.",
     technique="Coq proof (replenish invariant + k-way merge refinement) + extracted-model differential correspondence",
     design="5/C11"),
  "C19": dict(
@@ -200,9 +204,13 @@ CHECKS = {
          "count, frame height AND the text of the frame on the screen equal Ui.update/run_task/last_frame; exhaustive short sequences. "
          "reachable_from_inv / every_frame_from: the invariants hold in every state reachable from the two states State.Subcommand "
          "starts the program in, and every frame emitted on the way was computed without a panic.",
-    note="PARTIAL in one respect: the single refinement theorem to an abstract keymap over fully-known threads (window coverage after "
-         "settling) is replaced by the invariant + per-key theorems + correspondence. c/r/a/o/p/b are exercised on real pub.Post / "
-         "Actor / Activity values built from embedded JSON (batch c07-pub), including the link the media hook receives.",
+    note="Refinement to an abstract thread (ThreadFacts): under world-coherence hypotheses stating what parents/children/harvest "
+         "return on a thread whose structure is known, and preload >= 1, opening an item shows a window around it (open_refines) and "
+         "after every k / j / g, once loads have settled, the highlighted item is the one the abstract walk over the whole thread "
+         "predicts (key_up/down_refines, thread_walk_refines, thread_walk_from_start); g's coverage statement for arbitrary windows is "
+         "refuted and replaced by the reachable-state version. c/r/a/o/p/b are exercised on real pub.Post / Actor / Activity values "
+         "built from embedded JSON (batch c07-pub), including the link the media hook receives. With preload = 0 (an accepted "
+         "configuration) nothing is ever loaded around the cursor: the refinement needs preload >= 1.",
     technique="Coq proof (inductive invariant over a transition system with pending tasks; per-key lemmas) + differential correspondence on key histories",
     design="5/C07"),
  "C08": dict(
